@@ -101,6 +101,12 @@ func c10ChildMain() {
 	if dn, err := os.OpenFile(os.DevNull, os.O_WRONLY, 0); err == nil {
 		os.Stdout = dn // the default file handler prints every event
 	}
+	if mb := atoi(os.Getenv("VERIFH_C10_RLIMIT_MB")); mb > 0 { // thorough tier: address-space limit (ulimit -v)
+		lim := syscall.Rlimit{Cur: uint64(mb) << 20, Max: uint64(mb) << 20}
+		if err := syscall.Setrlimit(syscall.RLIMIT_AS, &lim); err != nil {
+			os.Exit(5)
+		}
+	}
 	switch parts[0] {
 	case "808":
 		opts := []service.Option{service.WithHostPorts(parts[1])}
@@ -122,6 +128,7 @@ func init() {
 	c10ChildMain()
 	RegisterOp("contain808", func(a []string) string { return c10ContainOp("808", a) })
 	RegisterOp("containatt", func(a []string) string { return c10ContainOp("att", a) })
+	RegisterOp("contain808mem", c10MemOp)
 }
 
 // ---------------------------------------------------------------- the parent side: child management
@@ -220,7 +227,9 @@ func (c *C10Child) Kill() {
 }
 
 // c10StartChild starts one server process and waits until it accepts connections.
-func c10StartChild(kind, param string) (*C10Child, error) {
+func c10StartChild(kind, param string) (*C10Child, error) { return c10StartChildLimited(kind, param, 0) }
+
+func c10StartChildLimited(kind, param string, limitMB int) (*C10Child, error) {
 	// the binary lives in a cache directory that a concurrent bin/check may prune: re-execute the running image
 	exe := "/proc/self/exe"
 	if _, err := os.Stat(exe); err != nil {
@@ -235,7 +244,8 @@ func c10StartChild(kind, param string) (*C10Child, error) {
 		os.MkdirAll(cwd, 0o755)
 		c := &C10Child{Kind: kind, Param: param, Addr: addr, stderr: &c10LockedBuf{}, done: make(chan struct{})}
 		c.cmd = exec.Command(exe)
-		c.cmd.Env = append(os.Environ(), "VERIFH_C10_CHILD="+kind+","+addr+","+param, "VERIFH_C10_CHILD_CWD="+cwd)
+		c.cmd.Env = append(os.Environ(), "VERIFH_C10_CHILD="+kind+","+addr+","+param, "VERIFH_C10_CHILD_CWD="+cwd,
+			"VERIFH_C10_RLIMIT_MB="+strconv.Itoa(limitMB))
 		c.cmd.Stderr = c.stderr
 		c.cmd.SysProcAttr = &syscall.SysProcAttr{Pdeathsig: syscall.SIGKILL}
 		if err := c.cmd.Start(); err != nil {
@@ -553,6 +563,11 @@ func c10ContainOp(kind string, a []string) string {
 					wait = ContainWaitAnswer
 				}
 				d, closed, ok := c.waitFor(func(b []byte) bool { return c10ProbeAnswered(b, pser, 0x0002) }, wait)
+				if ok && !closed && bytes.Contains(bytes.Join(sent[k], nil), []byte{0x7e, 0x80, 0x03}) {
+					// the echo of a 0x8003 frame travels on its own channel and may be written after the probe's answer
+					time.Sleep(30 * time.Millisecond)
+					d, closed = c.snapshot()
+				}
 				switch {
 				case closed:
 					status[k] = "closed"
@@ -604,6 +619,146 @@ func c10ContainOp(kind string, a []string) string {
 		fmt.Fprintf(&sb, " death=%q", child.Death())
 	}
 	return sb.String()
+}
+
+// contain808mem <limit MB> <n>: a FRESH JT808 server under an address-space limit (ulimit -v); one hostile
+// connection sends n 20-byte frames "packet 1 of 65535", each for another message id (completePack allocates a
+// 65535-slot table per id and keeps it for 60 s); then the good session and a new connection are served.
+// The model does not see memory: this op exists on the implementation side only (direct oracle, thorough tier).
+func c10MemOp(a []string) string {
+	if len(a) < 2 {
+		return "bad-args"
+	}
+	limit, n := atoi(a[0]), atoi(a[1])
+	child, err := c10StartChildLimited("808", "0", limit)
+	if err != nil {
+		return "no-child " + err.Error()
+	}
+	defer child.Kill()
+	gb := []byte{0x01, 0x38, 0x00, 0x13, 0x80, 0x01}
+	good, err := c10Dial(child.Addr)
+	if err != nil {
+		time.Sleep(50 * time.Millisecond)
+		return "no-dial " + err.Error() + " " + child.Death()
+	}
+	defer good.close(false)
+	res := "ok"
+	hb := func(ser uint16, plat uint16) bool {
+		before, _ := good.snapshot()
+		good.c.Write(Frame808(0x0002, false, gb, ser, nil))
+		want := Frame808(0x8001, false, gb, plat, []byte{byte(ser >> 8), byte(ser), 0, 2, 0})
+		d, _, ok := good.waitFor(func(b []byte) bool { return len(b) >= len(before)+len(want) }, ContainWaitAnswer)
+		return ok && bytes.Equal(d[len(before):], want)
+	}
+	g1 := hb(1, 0)
+	h, err := c10Dial(child.Addr)
+	if err != nil {
+		time.Sleep(50 * time.Millisecond)
+		return fmt.Sprintf("ok alive=%d g1=%d g2=0 a=0 death=%q", b2i(child.Alive()), b2i(g1), err.Error()+" "+child.Death())
+	}
+	hp := []byte{0x01, 0x38, 0x00, 0x13, 0x80, 0x02}
+	var batch []byte
+	for i := 0; i < n && child.Alive(); i++ {
+		f := FrameSpec{ID: uint16(0x4000 + i), Phone: hp, Serial: uint16(i), Frag: true, Sum: 65535, No: 1, Body: []byte{1}}.Wire()
+		batch = append(batch, f...)
+		if len(batch) > 900 {
+			h.c.SetWriteDeadline(time.Now().Add(5 * time.Second))
+			if _, err := h.c.Write(batch); err != nil {
+				break
+			}
+			batch = batch[:0]
+		}
+	}
+	h.c.Write(batch)
+	time.Sleep(time.Duration(300+n/4) * time.Millisecond)
+	g2 := child.Alive() && hb(2, 1)
+	acc := false
+	if child.Alive() {
+		if c, err := c10Dial(child.Addr); err == nil {
+			ab := []byte{0x01, 0x38, 0x00, 0x13, 0x80, 0x03}
+			c.c.Write(Frame808(0x0002, false, ab, 7, nil))
+			_, _, acc = c.waitFor(func(b []byte) bool { return c10WholeFrames(b, 1) }, ContainWaitAnswer)
+			c.close(false)
+		}
+	}
+	vm := ""
+	if st, err := os.ReadFile(fmt.Sprintf("/proc/%d/status", child.cmd.Process.Pid)); err == nil {
+		for _, l := range strings.Split(string(st), "\n") {
+			if strings.HasPrefix(l, "VmSize:") || strings.HasPrefix(l, "VmRSS:") {
+				vm += " " + strings.Join(strings.Fields(l), "")
+			}
+		}
+	}
+	h.close(false)
+	time.Sleep(20 * time.Millisecond)
+	alive := child.Alive()
+	res += fmt.Sprintf(" alive=%d g1=%d g2=%d a=%d", b2i(alive), b2i(g1), b2i(g2), b2i(acc))
+	if os.Getenv("VERIFH_C10_SHOWVM") != "" {
+		res += vm
+	}
+	if !alive {
+		res += fmt.Sprintf(" death=%q", child.Death())
+	}
+	return res
+}
+
+// C10Long is a well-behaved session that stays open across many scripts (direct oracle only): every Ping sends
+// one frame and requires the prescribed general response with the next platform serial.
+type C10Long struct {
+	Kind, Param string
+	child       *C10Child
+	cli         *c10Cli
+	bcd         []byte
+	ser, plat   uint16
+	seen        int
+}
+
+func C10LongOpen(kind, param string, bcd []byte) *C10Long {
+	return &C10Long{Kind: kind, Param: param, bcd: bcd}
+}
+
+// Ping returns "" when the session was served correctly, "reopened" when the server process had been replaced
+// (its crash is reported by the script that caused it), else what went wrong.
+func (l *C10Long) Ping() string {
+	child, err := C10GetChild(l.Kind, l.Param)
+	if err != nil {
+		return "no child: " + err.Error()
+	}
+	note := ""
+	if l.child != child || l.cli == nil {
+		if l.cli != nil {
+			l.cli.close(false)
+		}
+		cli, err := c10Dial(child.Addr)
+		if err != nil {
+			return "dial: " + err.Error()
+		}
+		if l.child != nil {
+			note = "reopened"
+			l.bcd = append([]byte{}, l.bcd...)
+			l.bcd[len(l.bcd)-1] ^= 0x11 // a new terminal number: the old key may still be registered
+		}
+		l.child, l.cli, l.ser, l.plat, l.seen = child, cli, 0, 0, 0
+	}
+	l.ser++
+	id := uint16(0x0002)
+	var body []byte
+	if l.Kind == "att" {
+		id, body = 0x1211, Body1211([]byte("long"), 0, 1)
+	}
+	l.cli.c.Write(Frame808(id, false, l.bcd, l.ser, body))
+	want := Frame808(0x8001, false, l.bcd, l.plat, []byte{byte(l.ser >> 8), byte(l.ser), byte(id >> 8), byte(id), 0})
+	d, closed, ok := l.cli.waitFor(func(b []byte) bool { return len(b) >= l.seen+len(want) }, ContainWaitAnswer)
+	got := d[l.seen:]
+	l.seen = len(d)
+	l.plat++
+	if !ok || !bytes.Equal(got, want) {
+		if !child.Alive() {
+			return "reopened" // the process died: reported by the script that killed it
+		}
+		return fmt.Sprintf("long-lived session: sent serial %d, closed=%v, got %s, want %s", l.ser, closed, Hx(got), Hx(want))
+	}
+	return note
 }
 
 // C10LastDeath returns the death notice contained in an answer line ("" when the child survived).
